@@ -1,5 +1,6 @@
 import ScenicModel.Gen.LTL
 import ScenicModel.Model.LTLBuild
+import ScenicModel.Gen.LTLGram
 import Driver.Util
 /-!
 line protocol for the C11 model; the monitor configuration, the acceptance rule and the class → constructor
@@ -9,9 +10,11 @@ table are the ones regenerated from the sources.
                          after each update, traces separated by nothing (one digit per verdict)
   mon1 rows <tree>       one trace, rows like `10,01,11` (step,atom): the verdicts
   sat  k len <tree>      per trace 1/0: the finite-trace semantics `sat` on the full trace
-  run  k len <tree>      per trace the outcome of the static rule: `A`, `S` (scene check fails) or `R<t>`
-  dyn  k len <tree>      per trace the outcome of a `require` executed in a running scenario
+  run  k len <tree>      per trace `s`/`S` (initial-scene check passes/fails) followed by the outcome of the rule: `A` or `R<t>`
+  rts  k len <tree>      per trace the outcome of a `require` in the setup block of a scenario started at run time (`X` = exception)
+  dyn  k len <tree>      per trace the outcome of a `require` executed in a compose block
   cls  <tree>            `okZero(crisp=false) okZero(crisp=true) prop`
+  parse <tokens>         the tree the temporal-expression rules of scenic.gram give (prefix form) or `error`
 -/
 namespace Driver.C11
 open Driver Scenic.LTL
@@ -28,6 +31,7 @@ def parseRows (s : String) : List (List Bool) :=
 def showOutcome : Outcome → String
   | .accepted => "A"
   | .rejectedAt t => s!"R{t}"
+  | .crashed => "X"
 
 def verdicts (f : F) (σ : Trace) (len : Nat) : String :=
   String.join ((List.range len).map fun t => toString (evalAt cfg σ (t + 1) f 0))
@@ -48,13 +52,19 @@ def handle : List String → String
     | none => "bad-tree"
   | "sat" :: k :: len :: toks => withTree k len toks fun k len f => allTraces k len (fun σ => bit (sat σ len f 0)) ""
   | "run" :: k :: len :: toks => withTree k len toks fun k len f =>
-      allTraces k len (fun σ => if sceneOK cfg rule f σ then showOutcome (run cfg rule f σ len) else "S") " "
+      allTraces k len (fun σ => (if sceneOK cfg rule f σ then "s" else "S") ++ showOutcome (run cfg rule f σ len)) " "
+  | "rts" :: k :: len :: toks => withTree k len toks fun k len f =>
+      allTraces k len (fun σ => showOutcome (runRuntimeSetup cfg rule f σ len)) " "
   | "dyn" :: k :: len :: toks => withTree k len toks fun k len f =>
       allTraces k len (fun σ => showOutcome (runDynamic cfg rule f σ len)) " "
   | "cls" :: toks =>
     match build cmap toks with
     | some f => s!"{bit (f.okZero cfg false)} {bit (f.okZero cfg true)} {bit f.prop}"
     | none => "bad-tree"
+  | "parse" :: toks =>
+    match Scenic.LTL.Syntax.parse Scenic.Gen.LTLGram.gram toks with
+    | some t => " ".intercalate t
+    | none => "error"
   | _ => "bad-op"
 
 end Driver.C11
